@@ -180,7 +180,16 @@ Definition read_record (ft : ftable) (x : xnode) : option (list sexp) :=
                            | Some ty => [L [A (spec_prov_uri ++ "type"); L [A "qn"; A (spec_prov_uri ++ ty)]]]
                            | None => []
                            end in
-              let attrs := (cs ++ extra)%list in
+              (* xsi:type on the record element: the extension type of the record, i.e. a prov:type *)
+              let xt := match xattr xsi_ns "type" attrs with
+                        | None => Some []
+                        | Some ty => match resolve_uri scope ty with
+                                     | Some u => Some [L [A (spec_prov_uri ++ "type"); L [A "qn"; A u]]]
+                                     | None => None
+                                     end
+                        end in
+              match xt with None => None | Some xtl =>
+              let attrs := (cs ++ extra ++ xtl)%list in
               (* the schema lets prov:hadMember list several prov:entity children: one
                  membership per entity (the first keeps the identifier and the other attributes) *)
               let ent := spec_prov_uri ++ "entity" in
@@ -195,10 +204,15 @@ Definition read_record (ft : ftable) (x : xnode) : option (list sexp) :=
                 | [] => None
                 end
               else Some [L [A "rec"; A (spec_prov_uri ++ kind); ic; L attrs]]
+              end
           | _, _ => None
           end
       end
   end.
+
+(* prov:other holds non-PROV information: not part of the document's PROV content *)
+Definition is_other (x : xnode) : bool :=
+  match x with XE ns local _ _ _ _ => (String.eqb ns spec_prov_uri && String.eqb local "other")%bool end.
 
 Definition is_bundle_content (x : xnode) : bool :=
   match x with XE ns local _ _ _ _ => (String.eqb ns spec_prov_uri && String.eqb local "bundleContent")%bool end.
@@ -209,7 +223,7 @@ Definition read_bundle (ft : ftable) (x : xnode) : option sexp :=
       match xattr spec_prov_uri "id" attrs with
       | None => None
       | Some s =>
-          match resolve_uri scope s, all_some (map (read_record ft) kids) with
+          match resolve_uri scope s, all_some (map (read_record ft) (filter (fun k => negb (is_other k)) kids)) with
           | Some u, Some recs => Some (L (A "bundle" :: A u :: concat recs))
           | _, _ => None
           end
@@ -220,7 +234,7 @@ Definition read (ft : ftable) (root : xnode) : option sexp :=
   match root with
   | XE ns local _ _ _ kids =>
       if negb (String.eqb ns spec_prov_uri && String.eqb local "document")%bool then None else
-      let recs := filter (fun k => negb (is_bundle_content k)) kids in
+      let recs := filter (fun k => negb (is_bundle_content k || is_other k)) kids in
       let bundles := filter is_bundle_content kids in
       match all_some (map (read_record ft) recs), all_some (map (read_bundle ft) bundles) with
       | Some rl, Some bl => Some (L (A "content" :: L (A "bundle" :: A "" :: concat rl) :: bl))
